@@ -708,10 +708,34 @@ fn cmd_session(args: &[String]) -> i32 {
                     let comp = call.get("rev").and_then(J::as_u64).map(|x| x as usize);
                     let r = run(&b, &argv, &RunOpts { name: if named { Some(APP) } else { None }, comp });
                     let t = match r.class {
-                        "ok" => r.value.map(|v| v.to_string()).unwrap_or_default(),
-                        _ => r.text,
+                        "ok" => r.value.clone().map(|v| v.to_string()).unwrap_or_default(),
+                        _ => r.text.clone(),
                     };
-                    (r.class.to_string(), t)
+                    // the outcome is a function of the vector, not of the way it is handed over: when every
+                    // argument is text the `&[&str]` and `&[String]` entry points must give the same outcome
+                    let mut class = r.class.to_string();
+                    if op == "parse" && comp.is_none() {
+                        if let Some(strs) = argv.iter().map(|a| a.to_str().map(str::to_string)).collect::<Option<Vec<String>>>() {
+                            let refs: Vec<&str> = strs.iter().map(String::as_str).collect();
+                            for variant in 0..2 {
+                                let alt = std::panic::catch_unwind(std::panic::AssertUnwindSafe(|| {
+                                    let a = if variant == 0 { bpaf::Args::from(refs.as_slice()) } else { bpaf::Args::from(strs.as_slice()) };
+                                    let a = if named { a.set_name(APP) } else { a };
+                                    match b.parser.run_inner(a) {
+                                        Ok(v) => ("ok", v.to_json().to_string()),
+                                        Err(bpaf::ParseFailure::Stdout(d, full)) => ("stdout", d.monochrome(full)),
+                                        Err(bpaf::ParseFailure::Stderr(d)) => ("stderr", d.monochrome(true)),
+                                        Err(bpaf::ParseFailure::Completion(c)) => ("completion", c),
+                                    }
+                                }));
+                                match alt {
+                                    Ok((c, tt)) if c == r.class && tt == t => {}
+                                    _ => class = "apidiff".to_string(),
+                                }
+                            }
+                        }
+                    }
+                    (class, t)
                 }
             };
             writeln!(o, "END {} {} {} {} {}", si, k, class, fnv(&text), text.chars().take(120).collect::<String>().replace('\n', "|")).unwrap();
